@@ -27,7 +27,7 @@ fn space_for(tier: Tier) -> (Space, usize) {
         }
         Tier::Thorough => {
             s.ast("K", 4, 32).ast("Q", 3, 32).ast("CL", 3, 32);
-            s.ast_range("ALT", 1, 3, 16, 4).ast_range("LP", 1, 4, 16, 5).ast_range("FX", 1, 4, 16, 6);
+            s.ast_range("ALT", 1, 4, 16, 3).ast_range("LP", 1, 4, 16, 5).ast_range("FX", 1, 4, 16, 6);
             (s, 4)
         }
     }
